@@ -534,7 +534,16 @@ def run_scenario(steps):
         if direct != sub_t:
             fails.append(dict(step=i, what="NavigableString.output_ready(formatter) differs from the Formatter's substitute()", kf=None,
                               observed=tok(sub_t), expected=tok(direct)))
-        sub_a = f.attribute_value(s)
+        aval = s
+        if st.get("attr_holder"):
+            # the attribute value is a NavigableString OBJECT that lives inside another element (`p['t'] = script.string`):
+            # an attribute value is an attribute value wherever the string object hangs
+            holder = soup.new_tag(st["attr_holder"])
+            holder.string = s
+            soup.append(holder)
+            aval = holder.string
+            tag["t"] = aval
+        sub_a = f.attribute_value(aval)
         rendered = tag.decode() if spec["kind"] == "default" else tag.decode(formatter=arg)
         corr.append((f"{line} {tok(parent)} {tok(s)}", tok(sub_t)))
         corr.append((f"{line} none {tok(s)}", tok(sub_a)))
@@ -596,6 +605,10 @@ def scenarios(ctx):
         for spec in html_specs + xml_specs:
             for parent in PARENTS + EXEMPT_CANDIDATES:
                 yield "contexts", [dict(parent=parent, s=tok(s), formatter=spec)]
+    for s in texts[:10]:
+        for spec in html_specs[:4] + xml_specs[:1] + glue_specs[3:5]:
+            for holder in ("script", "style", "textarea", "p"):
+                yield "attr-value-object", [dict(parent="p", s=tok(s), formatter=spec, attr_holder=holder)]
     for s in texts[:10]:
         for spec in glue_specs:
             for parent in ("p", "script", "style", "textarea", "SCRIPT"):
@@ -975,7 +988,9 @@ def replay(path):
     if c.get("op") == "scenario":
         fails, _ = run_scenario(c["steps"])
         for i, st in enumerate(c["steps"]):
-            print(f"step {i}: <{st['parent']}> text/attribute {ascii(uncps(st['s']))} formatter {st['formatter']}")
+            print(f"step {i}: <{st['parent']}> text/attribute {ascii(uncps(st['s']))} formatter {st['formatter']}"
+                  + (f"; the attribute value is the NavigableString object of a <{st['attr_holder']}> element" if st.get("attr_holder") else "")
+                  + ("; element built by the parser" if st.get("parsed") else ""))
         for f in fails:
             print("  PROPERTY FAILS:", f["what"], "| expected", f.get("expected") and ascii(uncps(f["expected"])) if f.get("expected") and "/" not in f["expected"] else f.get("expected"),
                   "| observed", f.get("observed"), "| known-finding class:", f.get("kf"))
